@@ -35,12 +35,44 @@ def simplify_flags(repo):
     return rev, guard
 
 
+def merge_test(repo):
+    """the test under the comment 'Merge adjacent conditionals' in map_Block: the two nodes are conditionals with
+    equal conditions (unrepaired), and in addition no statement of the first one assigns a variable of the
+    condition (fix 5e02bf5)"""
+    tree = _parse(repo, "dagrt/codegen/dag_ast.py")
+    fn = _find_def(_find_class(tree, "ASTSimplifyMapper"), "map_Block")
+    ifs = [n for n in ast.walk(fn) if isinstance(n, ast.If) and isinstance(n.test, ast.BoolOp)
+           and isinstance(n.test.op, ast.And)
+           and "current_child.condition == next_child.condition" in [_src(v) for v in n.test.values]]
+    if len(ifs) != 1:
+        raise ShapeError("dag_ast.py map_Block: expected exactly one test merging adjacent conditionals")
+    conj = [_src(v) for v in ifs[0].test.values]
+    base = ["isinstance(current_child, IfThenElse)", "isinstance(next_child, IfThenElse)",
+            "current_child.condition == next_child.condition"]
+    stable = "not get_variables(current_child.condition) & _WrittenVariableFinder()(current_child)"
+    if conj == base:
+        return False
+    if conj == base + [stable]:
+        finder = _find_class(tree, "_WrittenVariableFinder")
+        pins = {"map_IfThenElse": "return self.rec(expr.then) | self.rec(expr.else_)",
+                "map_ForLoop": "return {expr.loop_var_name} | self.rec(expr.body)",
+                "map_StatementWrapper": "return set(expr.statement.get_written_variables())"}
+        for name, body in pins.items():
+            got = [_src(x) for x in _find_def(finder, name).body if not isinstance(x, ast.Expr)]
+            if got != [body]:
+                raise ShapeError("dag_ast.py _WrittenVariableFinder.%s: unrecognised body %r" % (name, got))
+        return True
+    raise ShapeError("dag_ast.py map_Block: unrecognised merge test %r" % conj)
+
+
 def generate(repo):
     out = [HEADER % "c06"]
     rev, guard = simplify_flags(repo)
     out.append("(* dagrt/codegen/dag_ast.py ASTSimplifyMapper.map_Block *)")
     out.append("Definition simplify_rev_expand : bool := %s." % coq_bool(rev))
     out.append("Definition simplify_guard_empty : bool := %s." % coq_bool(guard))
+    out.append("(* adjacent conditionals are merged only when the first assigns no variable of the condition *)")
+    out.append("Definition simplify_merge_guard_stable : bool := %s." % coq_bool(merge_test(repo)))
     return "\n".join(out) + "\n"
 
 
